@@ -174,6 +174,8 @@ Settle(closing) ==
                      \* a complete request that is well-formed under the connection's secret (or sent in the clear) and in sequence
                      \* was not delivered at all: the receiver did not recover what the sender wrote
                      << o.full /\ ~mustrej /\ o.cls = "W" /\ o.inv = 0 /\ closing /\ o.wr = 0, "C03" >>,
+                     \* ... none of the reasons for which C07 lets a request be rejected applies to it, yet it got neither handler nor reply
+                     << o.full /\ ~mustrej /\ o.cls = "W" /\ o.inv = 0 /\ closing, "C07" >>,
                      << o.full /\ ~mustrej /\ o.cls = "W" /\ o.inv = 0 /\ closing /\ o.wr = 0, "C05" >> })
        fin == o.inv >= 1 /\ o.next = -1
    IN [o EXCEPT !.pend = FALSE, !.bad = @ \cup new,
